@@ -298,6 +298,31 @@ func checkC17(c *Ctx) {
 	c.R.Floor("G6.pair", 2)
 	c.R.Floor("G7.wire", 3)
 	c.R.Floor("A-u.utf16", 3)
+	// the decoder is drained: a transform.Reader hands out at most one internal buffer per Read
+	if fn := c.FnOpt("efi/util.ParseUtf16Var"); fn != nil {
+		dv := c.deepViewOf(fn, 2)
+		bad := ""
+		n := 0
+		for _, di := range dv.order {
+			call, ok := di.i.(*ssa.Call)
+			if !ok {
+				continue
+			}
+			id := ir.CallID(call)
+			if id != "golang.org/x/text/transform.Reader.Read" && !(call.Call.IsInvoke() && call.Call.Method.Name() == "Read") {
+				continue
+			}
+			n++
+			if !inLoop(di.fr.fn, call.Block()) {
+				bad = "a single Read at " + c.IPos(call) + " takes what the decoding reader hands out in one go (at most its internal buffer, 4096 bytes): longer values are cut and then fail the terminator check"
+			}
+		}
+		if n == 0 {
+			c.R.Okf("A-u.utf16.whole", name(fn), "drained", c.Pos(fn.Pos()), "the decoded text is not obtained by direct Read calls (io.ReadAll / Bytes drain the decoder)")
+		} else {
+			c.R.Check(bad == "", "A-u.utf16.whole", name(fn), "drained", c.Pos(fn.Pos()), "the decoding reader is read until it is exhausted", bad)
+		}
+	}
 	// the conversions keep nothing in package-level memory between calls
 	c.rulePureAs("E.state", []string{"efi/util.GUIDToBytes", "efi/util.BytesToGUID", "efi/util.StringToGUID", "efi/util.(*EFIGUID).Bytes", "efi/util.(*EFIGUID).Format",
 		"efi/util.ParseUtf16Var", "efi/util.ReadNullString", "efi/util.CmpEFIGUID"})
